@@ -30,6 +30,9 @@ TYPES = [INT, STR, BYTES, opt(INT), opt(STR), seq(INT), seq(STR), sl(INT), sl(ST
 TYPES += [tup(*([INT] * n)) for n in range(2, 22)]
 TYPES += [tup(*[(INT, STR, opt(INT))[i % 3] for i in range(n)]) for n in (4, 7, 12, 21)]
 TYPES += [hl(*([INT] * n)) for n in (4, 6)]
+# a reference component at every position of every arity (what a per-position slip in a generated TupleN would hit)
+TYPES += [tup(*([sl(INT)] * n)) for n in range(2, 22)]
+TYPES += [hl(*([ptr(INT)] * n)) for n in (2, 3, 5)]
 
 
 def tid(t):
@@ -133,7 +136,7 @@ def emit():
         elif k == "opt":
             w('\tif a.T == "none" {\n\t\treturn fp.None[%s]()\n\t}\n\treturn fp.Some(mk_%s(a.V, pl))' % (gotype(t[1]), tid(t[1])))
         elif k in ("seq", "slice"):
-            w("\tif a.Nil {\n\t\treturn nil\n\t}\n\tr := make(%s, len(a.Xs))\n\tfor i, x := range a.Xs {\n\t\tr[i] = mk_%s(x, pl)\n\t}\n\treturn r" % (g, tid(t[1])))
+            w("\tif a.Nil {\n\t\treturn nil\n\t}\n\tr := make(%s, len(a.Xs), len(a.Xs)+a.Cap)\n\tfor i, x := range a.Xs {\n\t\tr[i] = mk_%s(x, pl)\n\t}\n\treturn r" % (g, tid(t[1])))
         elif k == "ptr":
             w('\tif a.T == "nilptr" {\n\t\treturn nil\n\t}\n\tif p, ok := pl.get(a.Id); ok {\n\t\treturn p.(%s)\n\t}\n\tv := mk_%s(a.V, pl)\n\tpl.put(a.Id, &v)\n\treturn &v' % (g, tid(t[1])))
         elif k == "gomap":
